@@ -24,11 +24,23 @@ class Inconclusive(BaseException):
     """Raised by stubs when the code under test reaches something the environment model does not cover."""
 
 
+_shared = {}             # per-path cache of named values shared between several runs inside one obligation
+
+
 def begin_path():
     global _forks
     _registry.clear()
     _counters.clear()
+    _shared.clear()
     _forks = 0
+
+
+def shared(name, maker):
+    """the value called `name` on this path, created by maker() on first use (self-composition: two runs that use
+    the same name see the same solver variable)"""
+    if name not in _shared:
+        _shared[name] = maker()
+    return _shared[name]
 
 
 def set_replay(values):
